@@ -22,7 +22,7 @@ def load_checks():
     return out
 
 
-PENDING_REASON = "not yet built in this framework (see DESIGN.md 10 for the build order); no check is claimed"
+PENDING_REASON = "check under construction: it does not yet exit 0 on the unchanged tree for every seed tried, so nothing is claimed (see DESIGN.md 19); the technique applies"
 
 
 def main():
